@@ -31,23 +31,23 @@ CLAIMED = {
             "Trusted: Lean kernel + standard axioms; transcription of the timestep kernels (validated by L-dt); sampling for the driver clause.",
             "DESIGN.md 4/C18"),
     'C01': ("Lean 4 theorems (telescoping balance for any mesh/flux array, periodic and wall invariance for arbitrary kernels, integrator conservation for any table) + exact-Q correspondence of every pipeline stage",
-            "Machine-checked proof on the 1D pipeline model: sum(vol*res) = F_0 - F_n + integrated sources for any faces and flux array; periodic ends carry equal fluxes for arbitrary cons2prim/reconstruction/flux; mass/energy (depth) fluxes vanish at slip walls for every registered Euler/shallow-water flux; every explicit integrator (any Butcher table / low-storage list) conserves linear functionals killed by the operator. 2D balance and fully periodic invariance are theorems on the structured 2D model; a theta-step with one global time step conserves every linear functional annihilated by the operator (finite-difference Jacobian columns are differences of residuals). Partial: 2D slip walls, gear with memory and whole solves are explored by the sweep.",
+            "Machine-checked proof on the 1D pipeline model: sum(vol*res) = F_0 - F_n + integrated sources for any faces and flux array; periodic ends carry equal fluxes for arbitrary cons2prim/reconstruction/flux; mass/energy (depth) fluxes vanish at slip walls for every registered Euler/shallow-water flux; every explicit integrator (any Butcher table / low-storage list) conserves linear functionals killed by the operator. 2D balance and fully periodic invariance are theorems on the structured 2D model; theta-steps and gear (BDF2 with its memory invariant) conserve every linear functional annihilated by the operator, for whole solves and every stored snapshot with one global time step (C06b); 2D: mass and energy are conserved between slip walls for the centered and HLLE fluxes and the wall-parallel momentum in a channel (C01b). Not claimed: conservation with the local-time-step directive (false: counterexample theorem).",
             "Trusted: Lean kernel + standard axioms; transcription of fvm1d and the integrator loops (validated by L-rhs1d over all stages and L-int); sampling.",
             "DESIGN.md 4/C01"),
     'C03': ("Lean 4 theorems (zero residual of a uniform state for any mesh/scheme/pointwise flux and any boundary kernel fixing the state; C16 compatibility theorems; explicit integrators fix zeros) + correspondence",
-            "Machine-checked proof that a uniform state has zero residual with periodic, dirichlet and matching Euler inlet/outlet conditions (the boundary kernels are proved to return the interior state), that nozzle sources vanish at rest, and that every explicit step loop (scalar or local time step) maps a zero of the operator to itself. Partial: implicit family and 2D pipeline by sweep.",
+            "Machine-checked proof that a uniform state has zero residual with periodic, dirichlet and matching Euler inlet/outlet conditions (the boundary kernels are proved to return the interior state), that nozzle sources vanish at rest, that every explicit step loop (scalar or local time step) maps a zero of the operator to itself, and so do theta-steps, gear and whole implicit solves including every snapshot (C06b, under the linear-solver hypothesis); 2D: the operator vanishes on uniform states for any scheme and flux when each side pair is periodic or its kernels fix the state, with the Euler 2D kernels (sym, outsub, outsup, insub, insup with normal or angle, dirichlet) characterised (C03b).",
             "Trusted: Lean kernel + standard axioms; transcriptions validated by L-rhs1d, L-bcker, L-int; sampling.",
             "DESIGN.md 4/C03"),
     'C11': ("Lean 4 theorems (constant/linear exactness on any mesh; refinement of the periodic uniform pipeline to a cyclic pipeline; circulant kappa stencil for all data and n>=1) + generated kappa constants + correspondence",
-            "Machine-checked proof of constant and linear exactness of every kappa scheme and of MUSCL with minmod/superbee on arbitrary meshes, of extrapol1 returning adjacent cell values, and that the periodic convection operator is the circulant kappa stencil for all data, all n>=1 and both signs, with kappa of the named classes regenerated from the source. Partial: 2D directional stencils and smooth-limiter exactness (bounded by C12) by sweep.",
+            "Machine-checked proof of constant and linear exactness of every kappa scheme and of MUSCL with minmod/superbee on arbitrary meshes, of extrapol1 returning adjacent cell values, and that the periodic convection operator is the circulant kappa stencil for all data, all n>=1 and both signs, with kappa of the named classes regenerated from the source. 2D (C11b): constants at every face, linear exactness in x, y and x+y at interior faces for every kappa, directional stencils with sharp index ranges, one-sided stencils next to open boundaries and periodic stencils at all faces. Partial: smooth-limiter exactness holds up to the C12 regularisation bound.",
             "Trusted: Lean kernel + standard axioms; gen_tables.py; transcription of grad/reconstruction (validated by L-rhs1d); sampling.",
             "DESIGN.md 4/C11"),
     'C14': ("Lean 4 refinement theorem (periodic uniform 1D pipeline = cyclic seam-free pipeline for every n>=1) and shift-equivariance corollaries + correspondence",
-            "Machine-checked proof that on a uniform periodic mesh the 1D residual commutes with every cyclic shift, for any reconstruction, cons2prim and pointwise flux, including n = 1,2,3. 2D: the residual commutes with cyclic shifts along x and along y for periodic pairs (any other pair arbitrary). Partial: the lift through integrators is checked to round-off on the implementation by the sweep.",
+            "Machine-checked proof that on a uniform periodic mesh the 1D residual commutes with every cyclic shift, for any reconstruction, cons2prim and pointwise flux, including n = 1,2,3. 2D: the residual commutes with cyclic shifts along x and along y for periodic pairs (any other pair arbitrary). Whole solves (C14b through the driver morphism theorem C07c.run_equivariant): for every explicit integrator (any Butcher table, low-storage list, explicit, rk2; global or local time step) the solve of cyclically shifted data has the same stop flag, iteration counts, times, iteration tags and monitor logs, and cell-wise shifted data in the final field, every snapshot and every trajectory state. Partial: implicit family at step level for affine operators (C06b) and by the sweep; 2D solves not instantiated.",
             "Trusted: Lean kernel + standard axioms; transcription of fvm1d (validated by L-rhs1d); sampling.",
             "DESIGN.md 4/C14"),
     'C19': ("Lean 4 theorems on add_source, nozzle source composition and geometric term + correspondence (L-rhs1d with nozzle sources, L-noz)",
-            "Machine-checked proof that the operator with sources is the operator without plus source_k on equation k (None contributing nothing), that the nozzle composition adds user and geometric sources, that the geometric sources are -(1/A dA/dx) times the mass, momentum-convective and enthalpy fluxes, and vanish for a constant section. 2D add_source by sweep.",
+            "Machine-checked proof that the operator with sources is the operator without plus source_k on equation k (None contributing nothing), that the nozzle composition adds user and geometric sources, that the geometric sources are -(1/A dA/dx) times the mass, momentum-convective and enthalpy fluxes, and vanish for a constant section; the source bodies are translated from the source and proved equal to the model's (GenK.nozSrc*_eq).",
             "Trusted: Lean kernel + standard axioms; transcription (validated by L-rhs1d, L-noz); python closures of user sources are modelled as arbitrary functions.",
             "DESIGN.md 4/C19"),
     'C20': ("Lean 4 theorems on the mesh constructors (uniform, morphed, refined with exact whole-cell ratio) + correspondence L-mesh1d",
@@ -55,11 +55,11 @@ CLAIMED = {
             "Trusted: Lean kernel + standard axioms; np.linspace modelled as i*(L/n); int() floor modelled by an explicit nc1 with hypothesis; sampling.",
             "DESIGN.md 4/C20"),
     'C06': ("Lean 4 theorems on the theta/xi step with an abstract linear solver (affine problems over any field, BDF2 recurrence, conservation, fixed points, complex amplification factors) + exact-Q correspondence L-istep/L-driver",
-            "Machine-checked proof that the finite-difference Jacobian of an affine operator is its matrix for any non-zero perturbation, hence one step of implicit / cranknicolson solves (I - dt M)Q' = Q + dt b resp. the Crank-Nicolson system, gear starts with exactly one Crank-Nicolson step (time advances by dt once) and then satisfies the BDF2 recurrence; |1/(1-z)|, |(1+z/2)/(1-z/2)| <= 1 for Re z <= 0 and the order identities. Partial: 'Jacobian equals the derivative' for nonlinear operators is explored numerically only.",
+            "Machine-checked proof that the finite-difference Jacobian of an affine operator is its matrix for any non-zero perturbation, hence one step of implicit / cranknicolson solves (I - dt M)Q' = Q + dt b resp. the Crank-Nicolson system, gear starts with exactly one Crank-Nicolson step (time advances by dt once) and then satisfies the BDF2 recurrence; |1/(1-z)|, |(1+z/2)/(1-z/2)| <= 1 for Re z <= 0 and the order identities. Nonlinear operators (C06c, over the reals): each entry of the finite-difference Jacobian converges to the partial derivative iff the line derivative exists (one-sided version for the code's positive perturbation), with exact error c*eps on quadratic lines and M|eps|/2 for Lipschitz derivatives, and the theta-step with the FD Jacobian converges to the exactly linearised step; gear with memory, conservation, fixed points and whole solves in C06b. Differentiability of the concrete residuals (false at limiter/upwind kinks) stays a hypothesis and is explored numerically.",
             "Trusted: Lean kernel + standard axioms; np.linalg.solve assumed to return a solution of the system formed (hypothesis hsolve); transcription validated by L-istep (exact Gaussian elimination in Q vs implementation, scalar and local dt, gear with memory) and L-driver.",
             "DESIGN.md 4/C06"),
     'C07': ("Lean 4 theorems on an explicit driver state machine (solve/restart/_solve) + integrator time-advance theorems + exact-Q correspondence of call histories (L-driver)",
-            "Machine-checked proof on the driver model: side steps leave the trajectory state untouched; every snapshot is stamped with a requested save time, tagged with the current iteration and reached by one forward step 0 <= ts - t <= dt from the current state (a save time equal to the current time copies the state); one iteration = one full step and counter+1; the loop stops at the first state satisfying a stop criterion; each integrator step advances time by dt exactly once (C05/C06 step theorems).",
+            "Machine-checked proof on the driver model: side steps leave the trajectory state untouched; every snapshot is stamped with a requested save time, tagged with the current iteration and reached by one forward step 0 <= ts - t <= dt from the current state (a save time equal to the current time copies the state); one iteration = one full step and counter+1; the loop stops at the first state satisfying a stop criterion; each integrator step advances time by dt exactly once (C05/C06 step theorems); invariants of one step lift to whole solves (C07b) and any morphism of driver configurations, including a positive rescaling of time, commutes with the whole state machine: flags, counts, snapshots, monitor logs (C07c.run_equivariant).",
             "Trusted: Lean kernel + standard axioms; transcription of _solve as a state machine with fuel (validated by L-driver on histories over all 12 integrators: snapshot (time,it,data), nit/totnit, final state, monitors, caller's field); python aliasing/copy semantics are modelled by value semantics and checked by the layer.",
             "DESIGN.md 4/C07"),
     'C08': ("Lean 4 theorems (trajectory = iterate of adv, independent of save times and monitors; solve N + restart M = solve N+M with hidden solver state explicit) + exact-Q correspondence of call histories",
@@ -67,23 +67,23 @@ CLAIMED = {
             "Trusted: Lean kernel + standard axioms; hypothesis hkeep (snapshot side steps restore the solver state) is what the repaired code implements and L-driver validates (gear with snapshots); sampling.",
             "DESIGN.md 4/C08"),
     'C13': ("Lean 4 equivariance theorems for the 1D space operator under reflection and change of units, for arbitrary kernels obeying mirror / homogeneity laws, with the laws proved for the flux and limiter kernels + exact-Q correspondence + twin-problem sweep",
-            "Machine-checked proof that rhs(mirror problem)(mirror data) = mirror(rhs) and rhs'(scaled data) = (f/l) rhs for every mesh, reconstruction, boundary treatment and n >= 1, given the kernel laws; mirror laws proved for every flux (C02) and limiter (C12 oddness), homogeneity for minmod/superbee (exact) and vanalbada/vanleer (bound). Partial: lift through integrators/driver, boundary-kernel mirror laws, and the bit-for-bit clause are explored by the twin-problem sweep; units with the regularised limiters fail (known finding K1); implicit integrators deviate by O(epsdiff) under reflection (known finding K3).",
+            "Machine-checked proof that rhs(mirror problem)(mirror data) = mirror(rhs) and rhs'(scaled data) = (f/l) rhs for every mesh, reconstruction, boundary treatment and n >= 1, given the kernel laws; mirror laws proved for every flux (C02) and limiter (C12 oddness), homogeneity for minmod/superbee (exact) and vanalbada/vanleer (bound). Every explicit step loop is equivariant under any additive map intertwining the operators (C13c) and the lift through the whole driver (save times, stop criteria, monitors, snapshots; time rescaled by a positive factor) is the morphism theorem C07c.run_equivariant with C14b.solve_equivariant_* for every explicit integrator. Partial: the time-rescaling instance at integrator level, HLLC at sM = 0 and the bit-for-bit clause (demanded by the sweep wherever every operation commutes exactly with powers of two) are explored by the twin-problem sweep; units with the regularised limiters fail (known finding K1); implicit integrators deviate by O(epsdiff) under reflection (known finding K3).",
             "Trusted: Lean kernel + standard axioms; transcription of fvm1d (validated by L-rhs1d) and kernels; sampling for the un-proved clauses.",
             "DESIGN.md 4/C13"),
-    'C10': ("Lean 4 theorems (admissible set is a convex cone; s U - F(U) admissible under the Einfeldt bounds; HLL star state admissible; the code's HLLE wave speeds satisfy the bounds and its flux is the HLL flux) + exact-Q correspondence + positivity sweep",
-            "PARTIAL machine-checked proof: the ingredients of the Einfeldt/Perthame-Shu positivity argument are proved for the Euler kernels exactly as coded (cone convexity, two-sided wave-speed lemma, admissible HLL intermediate state, HLLE = HLL with the code's own speeds which satisfy the bounds by construction; positive HLL depth for shallow water). Not proved: CFL<=1/2 on cell speeds implies the face wave-speed condition; HLLC; the assembled one-step statement. These are explored by the sweep (strong jumps, ratios 1e3, Mach 3, 40 steps).",
-            "Trusted: Lean kernel + standard axioms; transcription of flux kernels (L-flux-*), pipeline (L-rhs1d), integrators (L-int); sampling for the un-proved clauses.",
+    'C10': ("Lean 4 theorems (admissible cone; HLL star state; the first-order HLL update as an explicit convex combination; the code's HLLE / HLL / Rusanov fluxes are HLL fluxes with its own speeds; positivity of one step and of the SSP steps on the periodic pipeline model) + translated kernels + exact-Q correspondence + positivity sweep",
+            "Machine-checked proof: the update U - nu (F(U,Ur) - F(Ul,U)) of an HLL-type flux is an explicit convex combination of U and the two star states when nu (sR(left face) - sL(right face)) <= 1; the model's eHlle, swHll and swRusanov are HLL fluxes with the code's own wave speeds, which enclose the physical speeds; hence one forward-Euler step of the first-order periodic pipeline model keeps density and pressure (Euler HLLE, any cell sizes, face condition on the code's speeds) resp. depth (shallow water rusanov/hll, cell condition CFL <= 1/2 with the code's own swDt) positive in every cell, and so do the rk2_heun / rk3ssp step models (condition at every stage). PARTIAL: for Euler the cell condition CFL <= 1/2 does not imply the face condition in general (counterexample in C10b) and is explored by the sweep; HLLC, open boundaries and the finiteness clause (binary64) by the sweep.",
+            "Trusted: Lean kernel + standard axioms; transcription of flux kernels (L-flux-*, bridge theorems), pipeline (L-rhs1d), integrators (L-int); sampling for the un-proved clauses.",
             "DESIGN.md 4/C10"),
     'C09': ("Lean 4 theorems (Harten's lemma on ZMod n; upwind, MUSCL with every limiter, first-order Burgers: one step, SSP steps, whole solves) + exact-Q correspondence + TVD sweep",
             "Machine-checked proof of Harten's TVD lemma and maximum principle on the cyclic index set; one forward-Euler step of the periodic pipeline model is TVD and range preserving for first-order upwind convection (any speed sign, any periodic mesh, CFL<=1), MUSCL with any Sweby-region limiter (all four limiters of the code proved to be in it; any speed sign, uniform mesh, CFL<=1/2) and first-order Burgers with the code's flux (sonic points, ties; CFL<=1); lifted to the explicit/rk2_heun/rk3ssp step models through the Shu-Osher forms of the tables regenerated from the source, and to whole solves of the driver model (any save times, stop criteria, monitors; every returned snapshot). Partial: MUSCL with the Burgers flux and non-uniform MUSCL are explored by the sweep only; global time step assumed.",
             "Trusted: Lean kernel + standard axioms; transcription of fvm1d/fluxes/limiters/integrators/driver (layers L-rhs1d, L-flux-conv/burgers, L-lim, L-int, L-dt, L-driver); sampling for the partial clauses.",
             "DESIGN.md 4/C09"),
-    'C04': ("Lean 4 theorems for the algebraic ingredients of convergence (exact quadratic defect (k-1/3)h^2/2 of the kappa reconstruction with the generated constants, order conditions, Lax-Richtmyer accumulation, consistency and conservation) + measured convergence studies against exact solutions",
-            "PARTIAL by nature (convergence is a limit statement): machine-checked proof that the kappa face value is exact for linear data and has defect exactly (k-1/3)h^2/2 on quadratics (third order iff k = 1/3, the value the source's extrapol3 carries), of every temporal order condition (C05), of the Lax-Richtmyer error accumulation for any non-expansive one-step map (with non-expansion of first-order upwind from C09), and of conservation form + flux consistency (C01, C02). Convergence itself - observed orders for every reconstruction, monotone L1 error decrease for random Riemann problems against an independent exact Riemann solver, agreement of the packaged aerokit-based reference solutions - is explored numerically and labelled as such.",
+    'C04': ("Lean 4 convergence theorem with rate for the first-order upwind scheme of the model + theorems for the algebraic ingredients of higher-order convergence (exact quadratic defect (k-1/3)h^2/2 of the kappa reconstruction with the generated constants, order conditions, Lax-Richtmyer accumulation, consistency and conservation) + measured convergence studies against exact solutions",
+            "Machine-checked CONVERGENCE THEOREM for the first-order scheme (C04b.upwind_converges, _avg, _var): the model's explicit first-order upwind step on a periodic uniform mesh converges in the max norm to the exact translated profile with error <= (M/2)|a| h T (1-nu) for every periodic profile with M-Lipschitz derivative, either speed sign, any CFL <= 1, point-value or cell-average data, and is exact at CFL 1 (max-norm non-expansion + interpolation-error consistency + Lax-Richtmyer accumulation). For orders 2 and 3 PARTIAL by nature: machine-checked proof that the kappa face value is exact for linear data and has defect exactly (k-1/3)h^2/2 on quadratics (third order iff k = 1/3, the value the source's extrapol3 carries), of every temporal order condition (C05), of the Lax-Richtmyer error accumulation for any non-expansive one-step map (with non-expansion of first-order upwind from C09), and of conservation form + flux consistency (C01, C02). Convergence itself - observed orders for every reconstruction, monotone L1 error decrease for random Riemann problems against an independent exact Riemann solver, agreement of the packaged aerokit-based reference solutions - is explored numerically and labelled as such.",
             "Trusted: Lean kernel + standard axioms; gen_tables.py; the exact Riemann solver of the harness (riemann_exact.py); aerokit is external and unmodelled.",
             "DESIGN.md 4/C04, 6"),
     'C15': ("Lean 4 theorems on the structured 2D pipeline model (balance, periodic invariance, x/y shift equivariance, transposition, reflection in x and y with any boundary pairs, row-by-row reduction to the 1D pipeline) for arbitrary kernels obeying kernel laws proved for the Euler 2D kernels + exact-Q correspondence of every 2D stage",
-            "Machine-checked proof on the 2D model: transposing the problem (grid, data, velocity components, boundary pairs) transposes the residual; for y-independent data with periodic top/bottom each row of the 2D residual is the residual of the corresponding 1D discretisation (same flux, kappa scheme / first order) and the y-fluxes cancel; kernel laws (transposition, reduction to 1D, mirror in x and y) proved for e2Centered / e2Hlle (C02). Partial: reflections of the full operator, wall (sym) top/bottom in the reduction, and inlet/outlet boundary kernels' 2D mirror laws are explored by the sweep over all boundary tags.",
+            "Machine-checked proof on the 2D model: transposing the problem (grid, data, velocity components, boundary pairs) transposes the residual; for y-independent data with periodic top/bottom each row of the 2D residual is the residual of the corresponding 1D discretisation (same flux, kappa scheme / first order) and the y-fluxes cancel; kernel laws (transposition, reduction to 1D, mirror in x and y) proved for e2Centered / e2Hlle (C02). Reflection of the full operator in x and in y with any boundary pairs (exchanged and conjugated) is proved and instantiated for Euler 2D including the named boundary kernels (C15b; HLLE assumes positive face densities at the mirrored cell). Partial: wall (sym) top/bottom in the row-by-row reduction is explored by the sweep.",
             "Trusted: Lean kernel + standard axioms; the structured-index model and its flattening maps (validated by L-rhs2d over all four stage arrays and L-mesh2d); sampling for the partial clauses.",
             "DESIGN.md 4/C15"),
 }
